@@ -887,13 +887,141 @@ def case_hist_imaging(ctx, mask_id, k, op0=None, full=False, snr=False):
     noise = V.real_array("n", (H, W))
     for e in noise.reshape(-1):
         ctx.assume(e.t >= z3.RealVal("1/2"))
-    psf = V.real_array("p", (3, 3))
-    ctx.assume(z3.Sum([e.t for e in psf.reshape(-1)]) >= z3.RealVal("1/2"))
+    if snr:
+        psf = np.array([[0.0, 0.25, 0.0], [0.25, 1.0, 0.25], [0.0, 0.25, 0.0]])    # keeps the sign decisions linear
+    else:
+        psf = V.real_array("p", (3, 3))
+        ctx.assume(z3.Sum([e.t for e in psf.reshape(-1)]) >= z3.RealVal("1/2"))
     inputs = {"data": V.real_array("d", (H, W)), "noise": noise, "psf": psf, "origin": [V.real("oy"), V.real("ox")], "c": V.real("c")}
     _hist_case(ctx, "imaging", inputs, {"mask_id": mask_id, "full": full, "snr": snr}, k, op0)
 
 
-BODIES = {"case_ctor_struct": body_ctor_struct, "case_hist_vis": body_hist, "case_hist_array": body_hist, "case_hist_grid": body_hist, "case_hist_mask": body_hist, "case_hist_imaging": body_hist}
+# ---------------------------------------------------------------------------------------------------- level: mapper / valued mapper / inversion
+class _LinalgStub:
+    """np.linalg for autoarray.inversion.inversion.inversion_util: solve(A, b) with a CONCRETE matrix and a symbolic
+    right-hand side is inv(A) (real LAPACK) times b; everything else is the real numpy.linalg"""
+
+    def __getattr__(self, name):
+        return getattr(np.linalg, name)
+
+    def solve(self, a, b):
+        a = shim.normalise(a)
+        if shim.has_sym(b):
+            if shim.has_sym(a):
+                raise V.Unsupported("linear solve with a symbolic matrix")
+            inv = np.linalg.inv(np.asarray(a, dtype=float))
+            return np.dot(shim.as_obj(inv), np.asarray(hx.unwrap(b), dtype=object))
+        return np.linalg.solve(a, shim.normalise(b))
+
+
+class _NPWithLinalg:
+    def __init__(self, base):
+        object.__setattr__(self, "_base", base)
+        object.__setattr__(self, "linalg", _LinalgStub())
+
+    def __getattr__(self, name):
+        return getattr(self._base, name)
+
+
+def _install_linalg_stub():
+    from autoarray.inversion.inversion import inversion_util
+    if not isinstance(inversion_util.np, _NPWithLinalg):
+        inversion_util.np = _NPWithLinalg(inversion_util.np)
+
+
+def level_inversion(inp, mask_id, w_tilde, full=False):
+    import autoarray as aa
+    mk = _mask_arr(mask_id)
+    H, W = mk.shape
+    n = len(_pos(mk))
+    dv = np.asarray(inp["data"]).reshape(H, W)
+    vals = np.asarray(inp["vals"]).reshape(-1)[:9]
+    noise_c = 1.0 + 0.5 * ((np.arange(H * W).reshape(H, W) % 3))          # concrete, dyadic
+    psf_c = np.array([[0.0, 0.25, 0.0], [0.25, 1.0, 0.25], [0.0, 0.25, 0.0]])
+    pix_mask = np.array([True, False, False, False, True, False, False, False, False])
+
+    def build():
+        m = aa.Mask2D(mask=mk.copy(), pixel_scales=(1.0, 1.0))
+        data = aa.Array2D(values=np.array(dv, copy=True), mask=m)
+        noise = aa.Array2D(values=noise_c.copy(), mask=m)
+        psf = aa.Kernel2D.no_mask(values=psf_c.copy(), pixel_scales=(1.0, 1.0))
+        ds = _mk(aa.Imaging, data=data, noise_map=noise, psf=psf)
+        grid = aa.Grid2D.from_mask(mask=m)
+        mesh_grid = aa.Mesh2DRectangular.overlay_grid(shape_native=(3, 3), grid=grid)
+        mg = aa.MapperGrids(mask=m, source_plane_data_grid=grid, source_plane_mesh_grid=mesh_grid)
+        mapper = _mk(aa.Mapper, mapper_grids=mg, over_sampler=aa.OverSamplerUniform(mask=m, sub_size=1),
+                     regularization=aa.reg.Constant(coefficient=2.0))
+        settings = aa.SettingsInversion(use_w_tilde=bool(w_tilde), use_positive_only_solver=False, no_regularization_add_to_curvature_diag_value=False)
+        inv = _mk(aa.Inversion, dataset=ds, linear_obj_list=[mapper], settings=settings)
+        src_vals = np.array(vals, copy=True)
+        src_pix_mask = pix_mask.copy()
+        mv = _mk(aa.MapperValued, mapper=mapper, values=src_vals, mesh_pixel_mask=src_pix_mask)
+        src_vals0 = np.array(vals, copy=True)
+        mv0 = _mk(aa.MapperValued, mapper=mapper, values=src_vals0)
+        return {"data": data, "noise": noise, "psf": psf, "m": m, "ds": ds, "grid": grid, "mesh_grid": mesh_grid, "mapper": mapper,
+                "settings": settings, "inv": inv, "mv": mv, "mv0": mv0, "src_vals": src_vals, "src_vals0": src_vals0,
+                "src_pix_mask": src_pix_mask, "d": None}
+
+    def um(o):
+        u = o.unique_mappings
+        return [u.data_to_pix_unique, u.data_weights, u.pix_lengths]
+
+    q_mapper = [("mapping_matrix", lambda o: o.mapping_matrix), ("unique_mappings", um),
+                ("pix_weights_for_sub_slim_index", lambda o: o.pix_weights_for_sub_slim_index)]
+    q_inv = [("data_vector", lambda o: o.data_vector), ("curvature_matrix", lambda o: o.curvature_matrix),
+             ("regularization_matrix", lambda o: o.regularization_matrix), ("curvature_reg_matrix", lambda o: o.curvature_reg_matrix),
+             ("reconstruction", lambda o: o.reconstruction), ("mapped_reconstructed_data", lambda o: o.mapped_reconstructed_data),
+             ("mapped_reconstructed_image", lambda o: o.mapped_reconstructed_image), ("regularization_term", lambda o: o.regularization_term),
+             ("log_det_curvature_reg_matrix_term", lambda o: o.log_det_curvature_reg_matrix_term)]
+    q_mv = [("values_masked", lambda o: o.values_masked), ("mapped_reconstructed_image_from", lambda o: o.mapped_reconstructed_image_from()),
+            ("magnification_via_mesh_from", lambda o: o.magnification_via_mesh_from())]
+    if full:
+        q_mapper += [("sub_slim_indexes_for_pix_index", lambda o: o.sub_slim_indexes_for_pix_index),
+                     ("pix_indexes_for_sub_slim_index", lambda o: o.pix_indexes_for_sub_slim_index)]
+        q_inv += [("mapping_matrix", lambda o: o.mapping_matrix), ("operated_mapping_matrix", lambda o: o.operated_mapping_matrix),
+                  ("log_det_regularization_matrix_term", lambda o: o.log_det_regularization_matrix_term),
+                  ("reconstruction_dict", lambda o: list(o.reconstruction_dict.values())),
+                  ("data_subtracted_dict", lambda o: list(o.data_subtracted_dict.values())),
+                  ("curvature_reg_matrix_reduced", lambda o: o.curvature_reg_matrix_reduced)]
+        q_mv += [("max_pixel_centre", lambda o: o.max_pixel_centre)]
+    ops = [("noop", "read", lambda G: None)]
+    for who, qs in (("mapper", q_mapper), ("inv", q_inv), ("mv", q_mv), ("mv0", q_mv)):
+        ops += [("%s.%s" % (who, nm), "read", _rd(who, f)) for nm, f in qs]
+    ops += [("ds.convolver", "read", lambda G: G["ds"].convolver), ("ds.w_tilde", "read", lambda G: G["ds"].w_tilde.curvature_preload),
+            ("MapperValued(mapper, inv.reconstruction).mapped_reconstructed_image_from", "read",
+             lambda G: aa.MapperValued(mapper=G["mapper"], values=G["inv"].reconstruction, mesh_pixel_mask=G["src_pix_mask"]).mapped_reconstructed_image_from())]
+
+    def settings_state(G):
+        st = G["settings"]
+        return [bool(st.use_w_tilde), bool(st.use_positive_only_solver), bool(st.use_linear_operators), bool(st.force_edge_pixels_to_zeros)]
+
+    obs = [("inputs", lambda G: [_structure(G["data"]), _structure(G["noise"]), _structure(G["psf"]), _structure(G["m"]), _structure(G["grid"]),
+                                 _val(G["mesh_grid"]), G["src_vals0"], G["src_pix_mask"], settings_state(G)]),
+           ("mv.values (caller array)", lambda G: G["src_vals"])]
+    for who, qs in (("mapper", q_mapper[:2]), ("inv", q_inv), ("mv", q_mv[:2]), ("mv0", q_mv[:2])):
+        obs += [("%s.%s" % (who, nm), lambda G, who=who, f=f: f(G[who])) for nm, f in qs]
+    return build, ops, obs
+
+
+def _mv_region(names, obs_name, ops, hist):
+    """a MapperValued query with a mesh_pixel_mask ran before the observation (values_masked / mapped_reconstructed_image_from
+    zero the caller's values and the mapper's cached mapping matrix in place), or the observation is such a query itself
+    compared with its own first-call value"""
+    return any(nm.startswith("mv.") or nm.startswith("MapperValued(") for nm in names)
+
+
+LEVELS["inversion"] = level_inversion
+KNOWN_REGIONS["inversion"] = {"mapper-valued-masks-in-place": _mv_region}
+
+
+def case_hist_inversion(ctx, mask_id, w_tilde, k, op0=None, full=False):
+    _install_linalg_stub()
+    H, W = _mask_arr(mask_id).shape
+    inputs = {"data": V.real_array("d", (H, W)), "vals": V.real_array("s", (9,))}
+    _hist_case(ctx, "inversion", inputs, {"mask_id": mask_id, "w_tilde": w_tilde, "full": full}, k, op0, tol=1e-9)
+
+
+BODIES = {"case_ctor_struct": body_ctor_struct, "case_hist_vis": body_hist, "case_hist_array": body_hist, "case_hist_grid": body_hist, "case_hist_mask": body_hist, "case_hist_imaging": body_hist, "case_hist_inversion": body_hist}
 
 
 def cases(tier):
